@@ -53,10 +53,6 @@ NOINL static void check_strict_order(const CPPType *a, const CPPType *b) {
   ASSERT(!import_less(a, a) && !import_less(b, b), "C14 import-table comparator is irreflexive");
 }
 
-#ifndef SYMBOLIC
-#define SYMBOLIC 0
-#endif
-
 extern "C" void harness_c14_import_order() {
   __ll2c_global_ctors();
   // The file scope.  In interrogate it is `parser` itself (CPPParser derives from CPPScope); constructing a CPPParser
@@ -64,18 +60,6 @@ extern "C" void harness_c14_import_order() {
   // name functions treat the same way (CPPScope::get_local_name stops at a scope without parent and an empty name
   // adds no prefix).  `&parser` is what the real lambda passes down as the reference scope.
   CPPScope *global = new CPPScope(nullptr, CPPNameComponent(""), V_public);
-#if SYMBOLIC
-  // two different enclosing classes, each with a nested class E<letter> whose letter is symbolic: the nested classes
-  // may or may not share their unscoped name
-  char i1 = nondet_char(), i2 = nondet_char();
-  ASSUME(i1 >= 'a' && i1 <= 'z' && i2 >= 'a' && i2 <= 'z');
-  char in1[3] = {'E', i1, 0}, in2[3] = {'E', i2, 0};
-  CPPStructType *outer1 = make_class(global, std::string("Ta"));
-  CPPStructType *outer2 = make_class(global, std::string("Sb"));
-  CPPStructType *a = make_class(outer1->get_scope(), std::string(in1));
-  CPPStructType *b = make_class(outer2->get_scope(), std::string(in2));
-  check_strict_order(a, b);
-#else
   CPPStructType *name_table = make_class(global, std::string("NameTable"));
   CPPStructType *slot_table = make_class(global, std::string("SlotTable"));
   CPPStructType *nt_entry = make_class(name_table->get_scope(), std::string("Entry"));   // NameTable::Entry
@@ -83,6 +67,5 @@ extern "C" void harness_c14_import_order() {
   check_strict_order(name_table, slot_table);      // control: different simple names
   check_strict_order(nt_entry, st_entry);          // same simple name, different enclosing class
   check_strict_order(name_table, nt_entry);
-#endif
   WITNESS();
 }
